@@ -79,7 +79,7 @@ class C09(Pipeline):
         "hostile transactions are serialised by hand (the class 'empty' of math.Int / LegacyDec fields removes the field from the wire bytes, which the generated marshaller cannot produce) and signed with the key of the account that sends the well-formed message; kinds marked /all are sent by all 4 validators with the same mutation (values that matter once a quorum agrees); evidence proofs are parameters too (fields of the packed object)",
         "after the hostile block the pigeons keep doing their duty every block (sign, estimate, report relay errors, attest, batch estimates / confirmations, balance / reference block evidence) and users keep sending jobs, transfers and claims every 20 blocks; successful remote executions (transaction proofs) are not produced, relays are reported as failed and retried by the chain",
         "quick tier: every catalogue entry at one (height class, stage) pair rotating with the entry, plus every stage at height class m303 for the kinds whose values reach the end blockers; heights 300 / 303 are crossed when the hostile height is <= 303; thorough tier: a seeded sample of the full product, every run continued to the next multiple of 300 and 303; the periods of 10 000 blocks (reference block requests, purge of stale user contracts) are not reached",
-        "histories without a hostile entry: stages reportedpad / relayed (delivery report nobody attests), split (2 validators against 1), newval (evidence only from a validator created by a user a few blocks earlier, in no snapshot) are run on in mode noattest (pigeons sign / estimate / do batch work, nobody provides evidence) to height 610, past the pruning of the reported messages at height 600; worlds big (powers 50/40/30/30, validator 0's pigeon never runs) and solo (one validator, pigeon never runs) are prepared from genesis like the standard world and run for 120 blocks; a block of a world preparation that aborts is reported as the Prepare step's abort",
+        "histories without a hostile entry: stages reportedpad / relayed (delivery report nobody attests), split (2 validators against 1), newval (evidence only from a validator created by a user a few blocks earlier, in no snapshot) are run on in mode noattest (pigeons sign / estimate / do batch work, nobody provides evidence) to height 610, past the pruning of the reported messages at height 600; worlds big (powers 50/40/30/30, validator 0's pigeon never runs) and solo (one validator, pigeon never runs) are prepared from genesis like the standard world and run for 120 blocks; world life (unbonding period shortened to 100 s in genesis): validator 3 gets a relay history, withdraws its whole stake, is dropped from the next snapshot and removed from staking 20 blocks later (slashing signing info and relay history stay), the message id counter of the consensus module is advanced by 1100 on the uncached context (standing for 1100 messages queued, handled and removed meanwhile: with them really queued a block takes 0.4 s), new jobs are relayed and attested, the chain crosses heights = 0 mod 10, validator 3 joins again, and the world is run on to height 280 and 120 more blocks; a block of a world preparation that aborts is reported as the Prepare step's abort",
         "version gate: the spec closes the gate (and demands the halt) when the running software is semantically older than the completed upgrade OR belongs to another [major].[minor] line than it (x/paloma's documented intent: 'app needs to be in the [major].[minor] space' - a binary of another line is the wrong software for the chain state); a newer patch level of the same line must never be stopped. Versions are compared as numbers per component (patch 10 > 9 > 6, 100 > 20), a pre-release is older than its release; the running version is set through cosmos-sdk/version.Version before the application of that history is created, the completed upgrade through x/upgrade's done marker with a registered handler",
         "matching relay transactions: the compass call of the queued message packed with the compass ABI that ships with the repository (reduced to submit_logic_call, deploy_contract, update_valset and the ContractDeployed event), the valset of the snapshot named in the delivery report and all signatures, signed by the relayer's external key; receipts are built by the driver (tag 'receipt': empty, malformed, failed status, no logs, a log without topics before compass' event, foreign logs first, 400 logs, undecodable event data, 4 topics)",
         "governance actions other than chain removal and the version gate are not enumerated (their parameters are set by governance, not by a transaction sender)",
@@ -114,7 +114,7 @@ class C09(Pipeline):
                  {"act": "Run", "args": {"mode": "duty", "span": "next"}}] for a, g in pairs]
         special = [[{"act": "Prepare", "args": {"stage": s, "hclass": "other", "world": "std"}}, {"act": "Run", "args": {"mode": "noattest", "span": "prune"}}]
                    for s in ("relayed", "reportedpad", "split", "newval")]
-        special += [[{"act": "Prepare", "args": {"stage": "idle", "hclass": "other", "world": w}}, {"act": "Run", "args": {"mode": "duty", "span": "120"}}] for w in ("big", "solo")]
+        special += [[{"act": "Prepare", "args": {"stage": "idle", "hclass": "other", "world": w}}, {"act": "Run", "args": {"mode": "duty", "span": "120"}}] for w in ("big", "solo", "life")]
         gate += special
         return copy.deepcopy(GOV) + (gate if tier == "thorough" else [])
 
@@ -213,9 +213,11 @@ class C09(Pipeline):
             self._vacuity.append("vacuous drive: not every unattested-report stage was run to its pruning height")
         silent = [e for e in events if e["act"] == "Run" and e["args"].get("span") == "120"]
         for e in silent:
+            if stage_of[e["h"]]["world"] == "life":
+                continue
             if e["res"] == "ok" and (e["lapsed"] < 1 or e["blocks"] < 120):
                 self._vacuity.append("vacuous drive: world %s has no unjailed validator with a dead pigeon after %d blocks" % (stage_of[e["h"]]["world"], e["blocks"]))
-        if {stage_of[e["h"]]["world"] for e in silent} != {"big", "solo"}:
+        if {stage_of[e["h"]]["world"] for e in silent} != {"big", "solo", "life"}:
             self._vacuity.append("vacuous drive: the worlds with an unjailable inactive validator were not run")
         seen = {(e["args"]["kind"], e["args"]["param"], e["args"]["class"]) for e in hs}
         cat = {(k, p, c) for k, ps in self._catalogue["kinds"].items() for p, t in ps for c in self._catalogue["classes"][t]}
